@@ -42,6 +42,24 @@ def build(v):
         tpls += [[hn, hs], ["entry.html", "top\n é {% include 'inc.html' %} after"]]
         entry = "entry.html"
         sites = [("entry.html", "{% include 'inc.html' %}")]
+    elif host in ("included-in-filter-section", "included-in-set-block", "included-in-component-call-body", "included-in-loop"):
+        hn, hs = "inc.html", "I " + body + tail
+        call = "{% include 'inc.html' %}"
+        wrap = {"included-in-filter-section": "{% filter upper %}a " + call + "{% endfilter %}", "included-in-set-block": "{% set v %}" + call + "{% endset %}{{ v }}",
+                "included-in-component-call-body": "{% <wrap> %}b " + call + "{% </wrap> %}", "included-in-loop": "{% for i in [1, 2] %}" + call + "{% endfor %}"}[host]
+        tpls += [["w.html", "{% component wrap() %}{{ body }}{% endcomponent wrap %}"], [hn, hs], ["entry.html", "top é\n" + wrap + " after"]]
+        entry = "entry.html"
+        sites = [("entry.html", call)]
+    elif host == "included-twice-nested":
+        hn, hs = "inc.html", "I " + body + tail
+        tpls += [[hn, hs], ["mid.html", "{% set v %}m {% include 'inc.html' %}{% endset %}{{ v }}"], ["entry.html", "x {% filter upper %}{% include 'mid.html' %}{% endfilter %}"]]
+        entry = "entry.html"
+        sites = [("mid.html", "{% include 'inc.html' %}"), ("entry.html", "{% include 'mid.html' %}")]
+    elif host == "component-in-capture":
+        hn, hs = "comp.html", "{% component k() %}C " + body + tail + "{% endcomponent k %}"
+        tpls += [[hn, hs], ["entry.html", "é {% set v %}{{<k/>}}{% endset %}{{ v }}"]]
+        entry = "entry.html"
+        sites = [("entry.html", "{{<k/>}}")]
     elif host == "parent-block":
         hn, hs = "parent.html", "P{% block b %}" + body + tail + "{% endblock %}Q"
         tpls += [[hn, hs], ["entry.html", "{% extends 'parent.html' %}"]]
